@@ -53,6 +53,18 @@ def r07_6(run):
         run.ob('R07.6', lu, lu.node, '%s passes the snapshot lines through %s' % (loader, upd), bool(calls), slot='loader:%s' % loader, message='%s no longer calls %s' % (loader, upd))
     ev = g.nodes_where(lambda n: any(is_call_to(a, 'self._add_events') for a in node_asts(n)))
     run.ob('R07.6', bs, bs.node, 'the bootstrap subscribes to the events', bool(ev), slot='subscribe', message='_bootstrap no longer calls _add_events')
+    # a snapshot entry is a whole event line with KEY=value words in it (BUILD_FLAGS=, PURPOSE=, old-style $fp=nick hops): the loaders,
+    # and the helpers they share, take the "<key>=" prefix off without splitting the entry at every "="
+    cut = ('_circuit_update', '_stream_update')
+    for u in reach_units(run.idx, [TU(run, '_circuit_status'), TU(run, '_stream_status')], cut=cut):
+        if u.name in cut:
+            continue
+        for c in calls_in(u):
+            if callee_attr(c) in ('split', 'rsplit') and c.args and const(c.args[0]) == '=' and len(c.args) == 1 and not c.keywords:
+                run.ob('R07.6', u, c, 'a snapshot entry is not cut at its own "=" signs', False, slot='snapshot-split@%s' % u.short,
+                       message='%s splits the snapshot text on every "=": a single-entry answer ("circuit-status=5 BUILT ... BUILD_FLAGS=...") loses everything after the '
+                               'entry\'s first KEY=value word (purpose, flags, and with $fp=nick hops the path)' % u.short)
+    run.ob('R07.6', bs, bs.node, 'snapshot loaders examined for "=" splits', True)
 
 
 def r07_5(run):
@@ -551,6 +563,7 @@ RULES.insert(2, ('R07.3', 'after CLOSED/FAILED/DETACHED the stream is under no c
 from ..selftest import M  # noqa: E402
 FS, FT, FC = 'txtorcon/stream.py', 'txtorcon/torstate.py', 'txtorcon/circuit.py'
 MUTANTS = [
+    M('snapshot-entry-split-at-every-equals', 'txtorcon/torstate.py', "        data = data[len('circuit-status='):].split('\\n')", "        data = data.split('=')[1].split('\\n')", ['R07.6']),
     M('hop-by-nickname', 'txtorcon/torstate.py', "                is_named = routerid[41] == '='\n", "                is_named = routerid[41] == '='\n                known = self.routers.get(nick, None)\n                if known is not None:\n                    return known\n", ['R07.4']),
     M('detach-forgets-address', 'txtorcon/stream.py', "                self.circuit.streams.remove(self)\n                self.circuit = None\n\n            # FIXME does this count as closed?", "                self.circuit.streams.remove(self)\n                self.circuit = None\n            self.target_addr = None\n\n            # FIXME does this count as closed?", ['R07.4']),
     M('remap-only-ips', 'txtorcon/stream.py', "            self.target_addr = maybe_ip_addr(args[3][:args[3].rfind(':')])", "            addr_ = maybe_ip_addr(args[3][:args[3].rfind(':')])\n            if not isinstance(addr_, str):\n                self.target_addr = addr_", ['R07.4']),
